@@ -76,6 +76,12 @@ func (x *Exec) heapSet(st *State, key string, t *Term) {
 	if _, ok := x.heapSort[key]; !ok {
 		x.heapSort[key] = t.S
 	}
+	if t.dep > 24 {
+		// long chains of updates (big composite literals): name the intermediate heap so that terms stay small
+		c := x.D.fresh("H."+key+".n", t.S)
+		x.asserts = append(x.asserts, tEq(c, t))
+		t = c
+	}
 	st.heap[key] = t
 }
 
@@ -157,9 +163,22 @@ func (x *Exec) mapGet(st *State, mt *types.Map, m, k *Term) *Val {
 	})
 }
 
+// havocAbstractMap forgets the contents of every map of an abstracted type.
+func (x *Exec) havocAbstractMap(st *State, mt *types.Map) {
+	for _, key := range mapKeys(mt) {
+		if s, ok := x.heapSort[key]; ok {
+			st.heap[key] = x.D.fresh("H."+key+".abs", s)
+		}
+	}
+}
+
 func (x *Exec) mapPut(st *State, mt *types.Map, m, k *Term, v *Val) {
 	ks, _ := sortOfKey(mt.Key())
 	dk := mapDomKey(mt)
+	if x.absMaps[dk] {
+		x.havocAbstractMap(st, mt)
+		return
+	}
 	dh := x.heapGet(st, dk, arr(SInt, arr(ks, SBool)))
 	had := tSelect(tSelect(dh, m), k)
 	x.heapSet(st, dk, tStore(dh, m, tStore(tSelect(dh, m), k, tTrue)))
@@ -176,6 +195,10 @@ func (x *Exec) mapPut(st *State, mt *types.Map, m, k *Term, v *Val) {
 func (x *Exec) mapDelete(st *State, mt *types.Map, m, k *Term) {
 	ks, _ := sortOfKey(mt.Key())
 	dk := mapDomKey(mt)
+	if x.absMaps[dk] {
+		x.havocAbstractMap(st, mt)
+		return
+	}
 	dh := x.heapGet(st, dk, arr(SInt, arr(ks, SBool)))
 	had := tSelect(tSelect(dh, m), k)
 	x.heapSet(st, dk, tStore(dh, m, tStore(tSelect(dh, m), k, tFalse)))
